@@ -15,6 +15,7 @@ from .common import table, variant_index, enum_switches
 from .facts import op_place, op_local
 
 CRATES = {"gluon_vm"}
+THOROUGH_CONFIGS = ["default", "nodefault"]  # thorough also analyses the default-feature and the no-default-features builds
 
 GC = "gluon_vm::gc::Gc"
 STACK = "gluon_vm::stack::Stack"
